@@ -99,15 +99,18 @@ def chunks (n : Nat) (s : Bytes) : List Bytes :=
 
 def digitChar (d : Nat) : Nat := base64.getD d 0
 
-def toBaseGo (bits : Nat) : Nat → Nat → Bytes → Bytes
+/-- digits of `x` in base `b`, most significant first, prepended to `acc` (the `while x:` loops) -/
+def toBaseGo (b : Nat) : Nat → Nat → Bytes → Bytes
   | 0, _, acc => acc
-  | fuel + 1, x, acc => if x == 0 then acc else toBaseGo bits fuel (x / 2 ^ bits) (digitChar (x % 2 ^ bits) :: acc)
+  | fuel + 1, x, acc => if x = 0 then acc else toBaseGo b fuel (x / b) (digitChar (x % b) :: acc)
+
+def toBase (b x : Nat) : Bytes := if x = 0 then [digitChar 0] else toBaseGo b (x + 1) x []
 
 /-- `helpers.int_to_base4` -/
-def intToBase4 (x : Nat) : Bytes := if x == 0 then [digitChar 0] else toBaseGo 2 (x + 1) x []
+def intToBase4 (x : Nat) : Bytes := toBase 4 x
 
 /-- `helpers.int_to_base64` -/
-def intToBase64 (x : Nat) : Bytes := if x == 0 then [digitChar 0] else toBaseGo 6 (x + 1) x []
+def intToBase64 (x : Nat) : Bytes := toBase 64 x
 
 def base64Index (c : Nat) : Option Nat :=
   let i := base64.idxOf c
@@ -121,8 +124,8 @@ def base64ToInt (s : Bytes) : Option Nat :=
 
 def base4Append (p n : Nat) : Nat := p * 4 + n
 
-/-- decimal rendering (`"%i"`) -/
-def natToDec (n : Nat) : Bytes := (toString n).toList.map Char.toNat
+/-- decimal rendering (`"%i"`); the decimal digits are the first ten characters of the base-64 alphabet -/
+def natToDec (n : Nat) : Bytes := toBase 10 n
 
 def decToNat? (b : Bytes) : Option Nat :=
   if b.isEmpty then none else
